@@ -110,6 +110,8 @@ struct State {
     winding_down: bool,
     machinery: Option<String>,
     free_boundaries: bool,
+    manual_blocking: bool,
+    jobs: std::collections::VecDeque<BlockingFn>,
 }
 
 thread_local! {
@@ -203,6 +205,10 @@ impl Hooks for EngineHooks {
     }
 
     fn spawn_blocking(&self, f: BlockingFn) {
+        if with_st(|st| st.manual_blocking) {
+            with_st(|st| st.jobs.push_back(f));
+            return;
+        }
         let n = with_st(|st| st.actors.len());
         spawn_kind(&format!("blocking{}", n), ActorKind::Blocking, move || f());
     }
@@ -228,6 +234,8 @@ pub fn begin() {
             winding_down: false,
             machinery: None,
             free_boundaries: true,
+            manual_blocking: false,
+            jobs: std::collections::VecDeque::new(),
         })
     });
 }
@@ -288,6 +296,37 @@ fn spawn_kind(name: &str, kind: ActorKind, body: impl FnOnce() + 'static) -> usi
 /// (default) or costs a preemption like any other switch.
 pub fn set_free_boundaries(free: bool) {
     with_st(|st| st.free_boundaries = free);
+}
+
+/// In manual mode closures handed to `spawn_blocking` are queued and run by
+/// the controller through [`run_job`] / [`run_jobs`] instead of becoming actors.
+pub fn set_manual_blocking(on: bool) {
+    with_st(|st| st.manual_blocking = on);
+}
+
+pub fn pending_jobs() -> usize {
+    with_st(|st| st.jobs.len())
+}
+
+/// Runs the k-th queued blocking closure on the caller's stack.
+pub fn run_job(k: usize) -> bool {
+    let j = with_st(|st| st.jobs.remove(k));
+    match j {
+        Some(j) => {
+            j();
+            true
+        }
+        None => false,
+    }
+}
+
+/// Runs queued blocking closures in FIFO order until none is left.
+pub fn run_jobs() -> usize {
+    let mut n = 0;
+    while run_job(0) {
+        n += 1;
+    }
+    n
 }
 
 /// Index of the running actor, if any.
